@@ -106,14 +106,18 @@ const Statement * FORStatement::doit(Context& ctx) const
   {
     RT * data = reinterpret_cast<RT*>(ctx.topControlData());
     /* var is type safe, so it can be read/write without care */
-    Integer nxt = *(data->iterator->integer()) + data->step;
-    if ((data->step > 0 && nxt > data->max) ||
-        (data->step < 0 && nxt < data->min))
+    Integer cur = *(data->iterator->integer());
+    /* test the remaining distance to the limit: computing cur + step first
+     * would overflow (and wrap) at the ends of the integer range */
+    if ((data->step > 0 && (cur > data->max ||
+            (uint64_t)data->max - (uint64_t)cur < (uint64_t)data->step)) ||
+        (data->step < 0 && (cur < data->min ||
+            (uint64_t)cur - (uint64_t)data->min < (uint64_t)(-data->step))))
     {
       ctx.unstackControl();
       return _next;
     }
-    *(data->iterator->integer()) = nxt;
+    *(data->iterator->integer()) = cur + data->step;
   }
 
   /* it should run with the given context, and will throw on error */
